@@ -8,6 +8,8 @@ From CMI Require Import Common.Scalar Cxx.C05_Defs Cxx.C04_Defs Cxx.C04_FluxDefs
 Import ListNotations.
 Local Open Scope R_scope.
 
+Ltac tup := repeat (match goal with |- (_, _) = (_, _) => apply f_equal2 end).
+
 Section RInst.
   Variable eps gfloor dblmax : R.
   Let RS := ROps eps gfloor.
@@ -179,19 +181,28 @@ Section RInst.
     0 <= c0 R (cons R c) + c0 R (dcons R c) * dt /\ 0 <= c4 R (cons R c) + c4 R (dcons R c) * dt.
   Definition no_source (c : rcell) : Prop := grav R c = vzero R RS /\ eterm R c = 0.
 
+  Lemma update_conserved_components c :
+    no_source c ->
+    let c' := update_conserved R RS dblmax c dt in
+    c0 R (cons R c') = smax RS (c0 R (cons R c) + c0 R (dcons R c) * dt) 0
+    /\ c1 R (cons R c') = c1 R (cons R c) + c1 R (dcons R c) * dt
+    /\ c2 R (cons R c') = c2 R (cons R c) + c2 R (dcons R c) * dt
+    /\ c3 R (cons R c') = c3 R (cons R c) + c3 R (dcons R c) * dt
+    /\ c4 R (cons R c') = smax RS (c4 R (cons R c) + c4 R (dcons R c) * dt) 0.
+  Proof.
+    intros [Hg He]. unfold update_conserved. rewrite Hg, He. cbn [cons c0 c1 c2 c3 c4].
+    unfold vzero, mkv, vx, vy, vz, vdot, mom. cbn [fst snd].
+    repeat split; try reflexivity; try (cbn; ring).
+    f_equal. cbn. ring.
+  Qed.
+
   Lemma update_conserved_cons k c :
     no_source c -> no_clamp c ->
     cproj k (update_conserved R RS dblmax c dt) = cproj k c + dproj k c * dt.
   Proof.
-    intros [Hg He] [H0 H4]. unfold cproj, dproj, update_conserved. rewrite Hg, He. cbn [cons].
-    unfold vzero, mkv, vx, vy, vz, vdot, mom. cbn [fst snd].
-    replace (smax RS (sadd RS (c0 R (cons R c)) (smul RS (c0 R (dcons R c)) dt)) (s0 RS))
-      with (c0 R (cons R c) + c0 R (dcons R c) * dt) by (symmetry; apply smax0_id; exact H0).
-    match goal with |- context [smax RS ?x (s0 RS)] =>
-      replace (smax RS x (s0 RS)) with (c4 R (cons R c) + c4 R (dcons R c) * dt)
-        by (symmetry; transitivity (smax RS (c4 R (cons R c) + c4 R (dcons R c) * dt) 0);
-            [apply smax0_id; exact H4 | f_equal; cbn; ring]) end.
-    unfold get5. cbn. repeat destruct (_ =? _)%Z; ring.
+    intros Hs [H0 H4]. destruct (update_conserved_components c Hs) as (E0 & E1 & E2 & E3 & E4).
+    rewrite smax0_id in E0 by exact H0. rewrite smax0_id in E4 by exact H4.
+    unfold cproj, dproj, get5. repeat destruct (_ =? _)%Z; assumption.
   Qed.
 
   (* after the update mass and energy are non-negative, whatever the input *)
@@ -244,4 +255,215 @@ Section RInst.
       destruct (flux_phase_same fs st j) as (_ & _ & _ & Hg & He & _). destruct (H0 j Hj) as [_ [Hg0 He0]].
       unfold no_source. rewrite Hg, He. split; assumption.
   Qed.
+
+  (* ---------------- primitive update: density and pressure are non-negative, whatever the input ---------------- *)
+  Lemma set_primitive_nonneg g maxv pcf T xH c invvol :
+    let c' := set_primitive R RS g maxv pcf T xH c invvol in
+    0 <= c0 R (prim R c') /\ 0 <= c4 R (prim R c').
+  Proof.
+    unfold set_primitive.
+    destruct (sltb RS (s0 RS) (c0 R (cons R c))); [|cbn; split; lra].
+    destruct (negb (sisinf RS (sdiv RS (s1 RS) (c0 R (cons R c))))); [|cbn; split; lra].
+    cbn [prim c0 c4]. split; apply smax0_nonneg.
+  Qed.
+
+  (* ---------------- Hydro::limit is odd ---------------- *)
+  Lemma smin_opp a b : smin RS (- a) (- b) = - smax RS a b.
+  Proof.
+    unfold smin, smax; cbn. destruct (Rltb (- b) (- a)) eqn:E1, (Rltb a b) eqn:E2; try reflexivity.
+    - apply Rltb_true in E1; apply Rltb_false in E2; lra.
+    - apply Rltb_false in E1; apply Rltb_true in E2; lra.
+  Qed.
+  Lemma smax_opp a b : smax RS (- a) (- b) = - smin RS a b.
+  Proof.
+    unfold smin, smax; cbn. destruct (Rltb (- a) (- b)) eqn:E1, (Rltb b a) eqn:E2; try reflexivity.
+    - apply Rltb_true in E1; apply Rltb_false in E2; lra.
+    - apply Rltb_false in E1; apply Rltb_true in E2; lra.
+  Qed.
+
+  Definition plus_bound (pmax d1 : R) : R :=
+    if Rltb 0 ((pmax + d1) * pmax) then pmax + d1 else pmax * Rabs pmax / (Rabs pmax + d1 + eps).
+  Definition minus_bound (pmin d1 : R) : R :=
+    if Rltb 0 ((pmin - d1) * pmin) then pmin - d1 else pmin * Rabs pmin / (Rabs pmin + d1 + eps).
+
+  Lemma limit_unfold m a b d :
+    limit R RS m a b d =
+    if Reqb a b then a
+    else if Rltb a b then smax RS (minus_bound (smin RS a b) (/ 2 * Rabs (a - b))) (smin RS (a + d * (b - a) + / 4 * Rabs (a - b)) m)
+    else smin RS (plus_bound (smax RS a b) (/ 2 * Rabs (a - b))) (smax RS (a + d * (b - a) - / 4 * Rabs (a - b)) m).
+  Proof.
+    unfold limit, plus_bound, minus_bound. cbn [shalf squarter sabs sadd ssub smul sdiv sltb seqb s0 sdblmin RS ROps].
+    replace (1 / 2) with (/ 2) by lra. replace (1 / 4) with (/ 4) by lra. reflexivity.
+  Qed.
+
+  Lemma plus_bound_opp x d1 : plus_bound (- x) d1 = - minus_bound x d1.
+  Proof.
+    unfold plus_bound, minus_bound. replace ((- x + d1) * - x) with ((x - d1) * x) by ring. rewrite Rabs_Ropp.
+    destruct (Rltb 0 ((x - d1) * x)); [ring|]. unfold Rdiv. ring.
+  Qed.
+  Lemma minus_bound_opp x d1 : minus_bound (- x) d1 = - plus_bound x d1.
+  Proof.
+    unfold plus_bound, minus_bound. replace ((- x - d1) * - x) with ((x + d1) * x) by ring. rewrite Rabs_Ropp.
+    destruct (Rltb 0 ((x + d1) * x)); [ring|]. unfold Rdiv. ring.
+  Qed.
+
+  Lemma limit_odd m a b d : limit R RS (- m) (- a) (- b) d = - limit R RS m a b d.
+  Proof.
+    rewrite !limit_unfold.
+    replace (- a - - b) with (- (a - b)) by ring. rewrite Rabs_Ropp.
+    destruct (Reqb (- a) (- b)) eqn:E1, (Reqb a b) eqn:E2; try reflexivity.
+    - apply Reqb_true in E1. apply Reqb_false in E2. exfalso. apply E2. lra.
+    - apply Reqb_false in E1. apply Reqb_true in E2. exfalso. apply E1. lra.
+    - apply Reqb_false in E2.
+      destruct (Rltb (- a) (- b)) eqn:E3, (Rltb a b) eqn:E4.
+      + apply Rltb_true in E3; apply Rltb_true in E4; lra.
+      + rewrite smin_opp, minus_bound_opp.
+        replace (- a + d * (- b - - a) + / 4 * Rabs (a - b)) with (- (a + d * (b - a) - / 4 * Rabs (a - b))) by ring.
+        rewrite smin_opp, smax_opp. reflexivity.
+      + rewrite smax_opp, plus_bound_opp.
+        replace (- a + d * (- b - - a) - / 4 * Rabs (a - b)) with (- (a + d * (b - a) + / 4 * Rabs (a - b))) by ring.
+        rewrite smax_opp, smin_opp. reflexivity.
+      + apply Rltb_false in E3; apply Rltb_false in E4. exfalso. apply E2. lra.
+  Qed.
+
+  Lemma limit_same m a d : limit R RS m a a d = a.
+  Proof. rewrite limit_unfold. destruct (Reqb a a) eqn:E; [reflexivity|]. apply Reqb_false in E. contradiction. Qed.
+
+  (* ---------------- reflecting wall: the ghost state is the mirror image of the cell's face state ---------------- *)
+  Definition mirror_vec (i : Z) (v : rvec) : rvec := vset R i v (- vget R i v).
+
+  Lemma reflective_ghost_input i (L : rcell) dx : (0 <= i <= 2)%Z ->
+    exists vL, ghost_input R RS 2 i L dx =
+      (smax RS (c0 R (prim R L)) 0, vL, smax RS (c4 R (prim R L)) 0,
+       smax RS (c0 R (prim R L)) 0, mirror_vec i vL, smax RS (c4 R (prim R L)) 0).
+  Proof.
+    intros Hi. assert (Hc : i = 0%Z \/ i = 1%Z \/ i = 2%Z) by lia.
+    destruct L as [[p0 p1 p2 p3 p4] cs ds [[[a0 b0] e0] [[a1 b1] e1] [[a2 b2] e2] [[a3 b3] e3] [[a4 b4] e4]] gv et lm].
+    unfold ghost_input, ghost_state, face_states, mirror_vec.
+    destruct Hc as [ -> | [ -> | -> ] ];
+      cbn [prim grad Z.eqb Z.add Pos.eqb Pos.add Pos.succ gmap gget gset get5 set5 vget vset c0 c1 c2 c3 c4 gr0 gr1 gr2 gr3 gr4
+           vx vy vz mkv fst snd];
+      rewrite !limit_same; eexists; tup; try reflexivity;
+      cbn [vx vy vz mkv fst snd]; tup; try reflexivity;
+      rewrite <- limit_odd; cbn; f_equal;
+      match goal with |- limit R RS ?x ?a ?b ?d = limit R RS ?x' ?a' ?b' ?d' =>
+        replace x with x' by ring; replace b' with b by ring; reflexivity end.
+  Qed.
+
+  (* ---------------- reflecting walls: no mass and no energy through a boundary face ---------------- *)
+  Section Reflective.
+    (* which wall states the Riemann function treats as a mirror problem without mass/energy exchange; for HLLC this is
+       C05_hllc_mirror_no_mass_energy_flux: gas not running into the wall faster than 1.5 sound speeds *)
+    Variable wall_ok : R -> rvec -> R -> rvec -> Prop.
+    Hypothesis riemann_mirror : forall i rho v P n, (0 <= i <= 2)%Z -> wall_ok rho v P n ->
+      let Fl := riemann rho v P rho (mirror_vec i v) P n in fst (fst Fl) = 0 /\ snd Fl = 0.
+    Hypothesis Hreflective : bkind = 2%Z.
+
+    Definition wall_dx (a sgn : Z) : R := if (sgn <? 0)%Z then sneg RS (vget R a dxs) else vget R a dxs.
+    Definition wall_admissible (c : rcell) (a sgn : Z) : Prop :=
+      let '(rho, v, P, _, _, _) := ghost_input R RS 2 a c (wall_dx a sgn) in
+      wall_ok rho v P (vset R a (vzero R RS) (orientation R RS (wall_dx a sgn))).
+
+    Lemma reflective_face_no_mass_energy (st : rstate) a sgn c :
+      (0 <= a <= 2)%Z -> wall_admissible (st c) a sgn ->
+      get5 R 0 (face_flux st (Boundary a sgn c)) = 0 /\ get5 R 4 (face_flux st (Boundary a sgn c)) = 0.
+    Proof.
+      intros Ha Hw. unfold face_flux, ghost_flux. rewrite Hreflective. fold (wall_dx a sgn).
+      unfold wall_admissible in Hw.
+      destruct (reflective_ghost_input a (st c) (wall_dx a sgn) Ha) as [vL E]. rewrite E in *.
+      pose proof (riemann_mirror a _ _ _ _ Ha Hw) as Hm. cbv zeta in Hm.
+      destruct (riemann (smax RS (c0 R (prim R (st c))) 0) vL (smax RS (c4 R (prim R (st c))) 0)
+                        (smax RS (c0 R (prim R (st c))) 0) (mirror_vec a vL) (smax RS (c4 R (prim R (st c))) 0)
+                        (vset R a (vzero R RS) (orientation R RS (wall_dx a sgn)))) as [[m p] e].
+      cbn [fst snd] in Hm. destruct Hm as [-> ->].
+      unfold scale_flux, flux5, get5. cbn. split; ring.
+    Qed.
+
+    Lemma wall_admissible_same c c' a sgn : same_but_delta c c' -> wall_admissible c a sgn -> wall_admissible c' a sgn.
+    Proof. intros (Hp & _ & Hg & _). unfold wall_admissible, ghost_input. rewrite Hp, Hg. exact (fun x => x). Qed.
+
+    Definition face_ok (cells : list Z) (st0 : rstate) (f : face) : Prop :=
+      match f with
+      | Interior _ l r => In l cells /\ In r cells
+      | Boundary a sgn c => In c cells /\ (0 <= a <= 2)%Z /\ wall_admissible (st0 c) a sgn
+      end.
+
+    Lemma reflective_phase_total k cells fs (st0 : rstate) :
+      (k = 0 \/ k = 4)%Z -> NoDup cells -> Forall (face_ok cells st0) fs ->
+      forall st : rstate, (forall j, same_but_delta (st0 j) (st j)) ->
+      total R RS (dproj k) cells (phase fs st) = total R RS (dproj k) cells st.
+    Proof.
+      intros Hk Hnd. induction fs as [|f fs IH]; intros HF st Hs; [reflexivity|].
+      pose proof (Forall_inv HF) as Hf. pose proof (Forall_inv_tail HF) as Hfs.
+      unfold flux_phase. cbn [fold_left]. fold (phase fs (face_step st f)).
+      rewrite IH; [|exact Hfs|intros j; eapply same_but_delta_trans; [apply Hs|apply face_step_same]].
+      destruct f as [a l r|a sgn c].
+      - destruct Hf. apply face_step_total_interior; assumption.
+      - destruct Hf as (Hc & Ha & Hw). rewrite face_step_total_boundary by assumption.
+        destruct (reflective_face_no_mass_energy st a sgn c Ha (wall_admissible_same _ _ a sgn (Hs c) Hw)) as [E0 E4].
+        destruct Hk as [-> | ->]; [rewrite E0|rewrite E4]; ring.
+    Qed.
+
+    (* C04 reflective_step_conserves_mass_energy: interior faces and reflecting boundary faces whose wall state the Riemann
+       function treats as a mirror problem; no source terms, no clamp => total mass (k = 0) and energy (k = 4) unchanged *)
+    Theorem reflective_step_conserves_generic k cells fs (st : rstate) :
+      (k = 0 \/ k = 4)%Z -> NoDup cells -> Forall (face_ok cells st) fs ->
+      (forall j, In j cells -> dcons R (st j) = zero5 R RS /\ no_source (st j)) ->
+      (forall j, In j cells -> no_clamp (phase fs st j)) ->
+      total R RS (cproj k) cells (update_phase R RS dblmax dt (phase fs st)) = total R RS (cproj k) cells st.
+    Proof.
+      intros Hk Hnd HF H0 Hnc.
+      rewrite update_phase_total.
+      - rewrite (reflective_phase_total k cells fs st Hk Hnd HF st (fun j => same_but_delta_refl (st j))).
+        rewrite (total_all_zero (dproj k)).
+        + rewrite Rmult_0_r, Rplus_0_r. apply total_ext. intros j Hj.
+          destruct (flux_phase_same fs st j) as (_ & Hc & _). unfold cproj. rewrite Hc. reflexivity.
+        + intros j Hj. unfold dproj. destruct (H0 j Hj) as [Hz _]. rewrite Hz. apply get5_zero5.
+      - intros j Hj. split; [|apply Hnc; exact Hj].
+        destruct (flux_phase_same fs st j) as (_ & _ & _ & Hg & He & _). destruct (H0 j Hj) as [_ [Hg0 He0]].
+        unfold no_source. rewrite Hg, He. split; assumption.
+    Qed.
+  End Reflective.
 End RInst.
+
+(* ---------------- binary64: what the positivity clamp std::max(x, 0.) guarantees ---------------- *)
+Section FloatClamp.
+  Variable pw : float -> float -> float.
+  Variable cst : Z -> Z -> float.
+  Let FS := FOps pw cst.
+
+  (* for every non-NaN argument the clamp returns a value >= 0 (finiteness is NOT claimed: +infinity passes) *)
+  Lemma f_clamp_nonneg (x : float) : PrimFloat.is_nan x = false -> PrimFloat.leb 0 (smax FS x 0%float) = true.
+  Proof.
+    intros Hn. unfold smax. cbn [sltb FS FOps].
+    destruct (PrimFloat.ltb x 0) eqn:E; [reflexivity|].
+    rewrite ltb_spec in E. rewrite leb_spec. unfold PrimFloat.is_nan in Hn. rewrite eqb_spec in Hn.
+    replace (Prim2SF 0%float) with (S754_zero false) in * by reflexivity.
+    destruct (Prim2SF x) as [s|s| |s m e].
+    - reflexivity.
+    - destruct s; [discriminate E|reflexivity].
+    - discriminate Hn.
+    - destruct s; [discriminate E|reflexivity].
+  Qed.
+
+  (* ... and a NaN goes through the clamp: (NaN < 0.) is false, so std::max(NaN, 0.) is NaN *)
+  Lemma f_clamp_nan : PrimFloat.is_nan (smax FS nan 0%float) = true.
+  Proof. reflexivity. Qed.
+
+  (* after update_conserved_variables the mass and the energy of a cell are >= 0 unless they are NaN *)
+  Lemma f_update_nonneg_or_nan (dblmax : float) (c : cell float) (dt : float) :
+    let c' := update_conserved float FS dblmax c dt in
+    (PrimFloat.is_nan (c0 float (cons float c')) = false -> PrimFloat.leb 0 (c0 float (cons float c')) = true)
+    /\ (PrimFloat.is_nan (c4 float (cons float c')) = false -> PrimFloat.leb 0 (c4 float (cons float c')) = true).
+  Proof.
+    assert (G : forall x, PrimFloat.is_nan (smax FS x 0%float) = false -> PrimFloat.leb 0 (smax FS x 0%float) = true).
+    { intros x H. apply f_clamp_nonneg. unfold smax in H. cbn [sltb FS FOps] in H.
+      destruct (PrimFloat.ltb x 0) eqn:E; [|exact H].
+      (* x < 0 implies x is not NaN *)
+      rewrite ltb_spec in E. unfold PrimFloat.is_nan. rewrite eqb_spec.
+      replace (Prim2SF 0%float) with (S754_zero false) in E by reflexivity.
+      destruct (Prim2SF x) as [s|s| |s m e]; try reflexivity; try discriminate E.
+      cbn. unfold SFeqb, SFcompare. destruct s; rewrite Z.compare_refl, Pos.compare_cont_refl; reflexivity. }
+    unfold update_conserved. cbn [cons c0 c4]. split; apply G.
+  Qed.
+End FloatClamp.
